@@ -286,6 +286,7 @@ func runC06(e *Env) {
 	})
 	e.R.NonTrivialN(int64(len(wjobs)))
 	e.R.AddPart(ev.Part{Name: "wide-chords-x-tracks", Enumerated: fmt.Sprintf("user chords of n = 1, 2, 3, 15, 16, 17, 31, 32, 33, %d tones (pairwise different pitches) in the piece [wide(n), rest, triad, wide(n/2)/5] x every track count 1..40: more tones than tracks, as many, fewer; in-process, every 7th through the real binary", wideMax), Executions: int64(len(wjobs)), Exhaustive: true})
+	runYAMLForms(e, "C06")
 	runLong(e, 16, func(c *playCase) {
 		for _, n := range []int{2, 3, 16} {
 			cc := *c
